@@ -41,6 +41,7 @@ type Req struct {
 	Procs     int        `json:"procs,omitempty"`     // GOMAXPROCS for this call (0 = leave)
 	Yield     int        `json:"yield,omitempty"`     // reader, writer and callbacks yield / sleep (1 = Gosched, n>1 = n microseconds)
 	CancelAt  *int       `json:"cancelat,omitempty"`  // cancel the caller's context when the reader has delivered this many bytes (-1: before the call)
+	CtxKind   string     `json:"ctxkind,omitempty"`   // "" : the caller's context ends by cancel(); "deadline": it ends as an expired deadline (Err() = DeadlineExceeded)
 	FailVisit int        `json:"failvisit,omitempty"` // walk: the callback fails at its n-th call (counted over all goroutines)
 	FailNames []string   `json:"failnames,omitempty"` // walk: the callback fails at every node with one of these names
 	PreDoc    string     `json:"predoc,omitempty"`    // mkdir/verify in a worker-owned jail: directories made (simple mode) before the call
